@@ -458,7 +458,7 @@ func checkMsgProp(w *World, r *Report, tm *Terms, rule string) {
 func checkC02(w *World, r *Report) {
 	r.Explanation = "Decides: (ESC-ROLE) every bank transfer and fee payment reachable from the 7 message handlers and the block hook is explored in the context of its entry point (helpers' address parameters bound by the call frames); payer and payee are attributed from the provenance of the address (escrow field / derivation of an auction, the stored auctioneer, a bidder, the message signer) and the (payer→payee) pair must be in the confirmed table of that entry point, within one auction; (BANK-METHODS) outside the simulation package only SendCoins, InputOutputCoins and SpendableCoins are invoked on the bank keeper (no mint/burn/module-account sends); (SETTLE-SEQ) for a Started auction of either type every non-failing path of block processing either performs no transfer or performs, exactly once and in this order, allocation (selling escrow→bidders), return of the unsold remainder (→auctioneer), refund (paying escrow→bidders; batch only), sweep (paying escrow→vesting escrow or auctioneer) and the status advance; (PAIR-FEE) creation and bid placement pay the configured fee from the signer exactly once before writing the record; (MSG-PROP) in the call trees of all message handlers a failing callee makes the caller fail."
 	r.NotDecided = "per-participant amounts; that bank's InputOutputCoins enforces inputs = outputs (bank v0.50.8, trusted); the final balances as numbers."
-	r.Rule("ESC-ROLE", "transfers have attributed roles in the confirmed table", 12)
+	r.Rule("ESC-ROLE", "transfers have attributed roles in the confirmed table", 8)
 	r.Rule("BANK-METHODS", "only coin-moving / reading bank methods", 3)
 	r.Rule("SETTLE-SEQ", "settlement steps complete and ordered", 2)
 	r.Rule("PAIR-FEE", "fee paid exactly once before the record", 5)
